@@ -4,7 +4,9 @@ values are spec/Queries.tla)."""
 import itertools
 
 from . import core
-from .core import NoT, exc_name, _rat
+from collections.abc import Mapping
+
+from .core import NoT, exc_name, _rat, as_bool, as_int
 
 dn = core.dn
 
@@ -12,7 +14,7 @@ dn = core.dn
 def _pairs(L, items, three=True):
     out = []
     for it in items:
-        if not isinstance(it, tuple) or len(it) not in (2, 3):
+        if not isinstance(it, (tuple, list)) or len(it) not in (2, 3):
             return None
         try:
             out.append([L.anode(it[0]), L.anode(it[1])])
@@ -46,33 +48,38 @@ def _call(entries, q, t, nb, n, m, kind, fn, L):
         elif kind == "attrs":
             v = []
             for x in list(r):
-                if not (isinstance(x, tuple) and len(x) == 2 and isinstance(x[1], dict)):
+                if not (isinstance(x, (tuple, list)) and len(x) == 2 and isinstance(x[1], Mapping)):
                     v = None
                     break
                 a = x[1].get("lab", 0)
-                v.append([L.anode(x[0]), a if isinstance(a, int) and not isinstance(a, bool) else -1])
+                v.append([L.anode(x[0]), as_int(a) if as_int(a) is not None else -1])
         elif kind == "int":
-            v = r if isinstance(r, int) and not isinstance(r, bool) else None
+            v = as_int(r)
         elif kind == "bool":
-            v = r if isinstance(r, bool) else None
+            v = as_bool(r)
         elif kind == "degmap":
-            if isinstance(r, dict):
+            try:
+                items = list(r.items()) if isinstance(r, Mapping) else [tuple(x) for x in r]   # dict, view or (node, degree) pairs
+            except TypeError:
+                items = None
+            if items is not None and all(len(x) == 2 for x in items):
                 v = []
-                for a, b in r.items():
-                    if isinstance(b, bool) or not isinstance(b, int):
+                for a, b in items:
+                    if as_int(b) is None:
                         v = None
                         break
-                    v.append([L.anode(a), b])
+                    v.append([L.anode(a), as_int(b)])
             else:
                 v = None
         elif kind == "rat":
             err = []
             v = _rat(r, err, "")
         elif kind == "ints":
-            v = list(r) if isinstance(r, (list, tuple)) and all(isinstance(x, int) and not isinstance(x, bool) for x in r) else None
+            r = list(r)
+            v = [as_int(x) for x in r] if all(as_int(x) is not None for x in r) else None
         elif kind == "times":
             kind = "ints"
-            v = [L.atime(x) for x in r] if isinstance(r, (list, tuple)) else None
+            v = [L.atime(x) for x in list(r)]
         else:
             raise AssertionError(kind)
         if v is None:
